@@ -88,6 +88,9 @@ def replay(ob):
             bad = check_dft(cfg)
         elif ob['unit'].startswith('wavelet-adjoint/'):
             bad = check_wavelet(cfg)
+        elif ob['unit'].startswith('wavelet-roundtrip/'):
+            cfg = dict(ob.get('model') or (ob.get('replay') or {}).get('case'))
+            bad = wavelet_check(cfg)[0]
         elif ob['unit'].startswith('ft-definition/'):
             cfg = ob.get('model') or (ob.get('replay') or {}).get('case')
             bad = ft_definition_check(cfg)[0]
@@ -178,4 +181,67 @@ def ft_definition_check(cfg, impls=('numpy', 'pyfftw')):
     for idx, ys in results.items():
         if len(ys) == 2 and not np.allclose(ys[0], ys[1], rtol=1e-9, atol=1e-11):
             return 'numpy and pyfftw back-ends differ on e_%s' % (idx,), evals
+    return None, evals
+
+
+# bounded stand-in: wavelet decomposition followed by reconstruction on every basis vector (linear for pad_const = 0), adjoint identity for
+# orthogonal wavelets with periodic extension
+
+WAVELETS = ('haar', 'db2', 'db3', 'sym2', 'sym4', 'coif1', 'bior1.3', 'bior2.2', 'rbio1.3', 'dmey')
+WAV_PADS = ('constant', 'periodic', 'symmetric', 'order0', 'order1', 'pywt_periodic', 'reflect', 'antireflect', 'antisymmetric')
+
+
+def wavelet_cases(tier='quick'):
+    import itertools
+    shapes = [(8,), (7,), (12,), (8, 6), (5, 8), (4, 6, 5)]
+    if tier == 'thorough':
+        shapes += [(16,), (9,), (9, 7), (8, 8, 4)]
+    wavs = WAVELETS if tier == 'thorough' else WAVELETS[:8]
+    for shape in shapes:
+        nd = len(shape)
+        subsets = [None] + [ax for r in range(1, nd) for ax in itertools.combinations(range(nd), r)]
+        for wname in wavs:
+            for pad in WAV_PADS:
+                for axes in subsets:
+                    for nlevels in (1, 2, None):
+                        yield dict(shape=list(shape), wavelet=wname, pad_mode=pad, axes=None if axes is None else list(axes), nlevels=nlevels)
+
+
+def wavelet_check(cfg):
+    odl, np = _odl()
+    shape = tuple(cfg['shape'])
+    nd = len(shape)
+    sp = odl.uniform_discr([0.0] * nd, [2.0, 3.0, 5.0][:nd], shape)
+    axes = None if cfg['axes'] is None else tuple(cfg['axes'])
+    try:
+        W = odl.trafos.WaveletTransform(sp, cfg['wavelet'], nlevels=cfg['nlevels'], pad_mode=cfg['pad_mode'], axes=axes)
+    except ValueError as e:
+        return None, 0      # rejected configuration (e.g. too many levels for the size): outside the claim
+    evals = 0
+    Winv = W.inverse
+    # periodization of an odd length repeats the last sample: the coefficient map is then redundant, not orthogonal
+    odd = False
+    for a in (range(nd) if axes is None else axes):
+        n = shape[a]
+        for _ in range(W.nlevels):
+            odd = odd or n % 2 == 1
+            n = (n + 1) // 2
+    cfg['odd_length_at_some_level'] = odd
+    for idx in np.ndindex(*shape):
+        e = np.zeros(shape)
+        e[idx] = 1.0
+        x = sp.element(e)
+        back = Winv(W(x)).asarray()
+        evals += 1
+        if back.shape != e.shape or not np.allclose(back, e, rtol=1e-9, atol=1e-10):
+            return 'W.inverse(W(e_%s)) differs from e by %.3g' % (idx, float(np.max(np.abs(back - e))) if back.shape == e.shape else float('nan')), evals
+    if W.is_orthogonal and cfg['pad_mode'] == 'pywt_periodic':
+        x = odl.phantom.white_noise(W.domain, seed=5)
+        y = odl.phantom.white_noise(W.range, seed=6)
+        for op in (W, Winv):
+            u, v = (x, y) if op is W else (y, x)
+            lhs, rhs = op(u).inner(v), u.inner(op.adjoint(v))
+            evals += 1
+            if abs(lhs - rhs) > 1e-9 * max(1.0, abs(lhs)):
+                return '%s: <A x, y> = %r but <x, A.adjoint y> = %r' % (type(op).__name__, lhs, rhs), evals
     return None, evals
